@@ -113,6 +113,8 @@ def run_one(sim, params):
             # termination is still going on) ...
             if state["broken"] and not ended.is_set() and sim.chance("again.now", 0.5):
                 for label, call in post_calls(llc):
+                    if label.endswith("(old)"):
+                        continue        # sockets other threads are still using stay theirs while the link is up
                     inflight[name] = "again:" + label
                     try:
                         call()
@@ -469,7 +471,19 @@ def run_one(sim, params):
                 raise Violation("no-progress", cause, "%s; live tasks: %s; %r" % (e, "; ".join(live)[:900], desc))
             stuck = [t for t in k.tasks if t.state == kernel.BLOCKED and t is not m]
             loops = [t for t in k.tasks if t.name.startswith("llc-run")]
-            report = ["%s blocked on %s at %s (was: %s)" % (t.name, t.wait_on, t.where(), inflight.get(t.name))
+            def sock_of(t):
+                """state of the socket object the blocked call works on (read from the blocked frame: diagnostics only)"""
+                import sys as _sys
+                fr = _sys._current_frames().get(t.thread.ident)
+                while fr is not None:
+                    o = fr.f_locals.get("self")
+                    if o is not None and hasattr(o, "send_queue") and hasattr(o, "state"):
+                        llcs = [x for x in (pair.I, pair.T) if any(sp is not None and o in getattr(sp, "sock_list", ()) for sp in x.sap)]
+                        return "%s state=%s addr=%s peer=%s registered=%s sendq=%d recvq=%d" % (
+                            type(o).__name__, o.state, o.addr, getattr(o, "peer", None), bool(llcs), len(o.send_queue), len(o.recv_queue))
+                    fr = fr.f_back
+                return "?"
+            report = ["%s blocked on %s at %s (was: %s) [%s]" % (t.name, t.wait_on, t.where(), inflight.get(t.name), sock_of(t))
                       for t in stuck]
             where = dict((t.name, (t.where(), t.where_fn())) for t in stuck)
             # SystemExit and IOError out of run() are what the repository does on a failing device;
